@@ -1321,6 +1321,9 @@ func (e *Engine) primitive(fi *fnInfo, st *State, in *ssa.Call, callee *ssa.Func
 				good = int(-n) <= st.P || int(-n) <= st.Lmin
 			}
 			e.check(st, "R-CURSOR", label, pos, good, fmt.Sprintf("Move(%d) with only %d byte(s) proven before the terminator (%d behind): the cursor steps over the NUL terminator (later Peek/Shift are out of range, the token includes the terminator)", n, st.E, max(st.P, st.Lmin)))
+			if n < 0 {
+				st.ownBack = true
+			}
 			st.moveBy(int(n))
 			break
 		}
@@ -1357,6 +1360,7 @@ func (e *Engine) primitive(fi *fnInfo, st *State, in *ssa.Call, callee *ssa.Func
 	case "Offset":
 		setRes(AbsVal{k: kOffset, fresh: true})
 	case "Rewind":
+		st.ownBack = true
 		av := e.eval(st, args[0])
 		if av.k != vMark || av.epoch != st.epoch {
 			if c, ok := av.constInt(); ok && st.Lmin == st.Lmax {
@@ -1717,7 +1721,7 @@ func (e *Engine) summaries(callee *ssa.Function, st *State, args []AbsVal) []sum
 			if c, ok := x.ret[0].constInt(); ok && c == 0 && isFailureResult(callee) && callee.Synthetic == "" {
 				// judged when the engine is done (finishRestore): only a scanner that restores the position on some
 				// failing path is held to restoring it on all of them
-				e.failExits[callee] = append(e.failExits[callee], failExit{st: x.st.clone(), pos: x.at.Pos(), lo: x.st.dispLo, hi: x.st.dispHi, moved: x.st.moves > 0})
+				e.failExits[callee] = append(e.failExits[callee], failExit{st: x.st.clone(), pos: x.at.Pos(), lo: x.st.dispLo, hi: x.st.dispHi, moved: x.st.ownBack})
 			}
 		}
 		// callee-local values are of no use to the caller
